@@ -114,6 +114,10 @@ def rules(P, R, prefix="C14"):
                 pops.append((f, n, q, i))
             elif name in ("push_front", "push_back"):
                 pushes.append((f, n, q, i))
+            elif name == "retain" and q == Pq:
+                R.fail(prefix + ".F4", key(f, "in-flight messages leave pending_replies only by their ACK or the re-queue%s" % tag, i), n["sp"],
+                       "%s.retain(..) removes messages that were already transmitted: the peer still replies to them, so every later reply is "
+                       "paired with the wrong message (ACK pairing is by FIFO position)" % q)
             elif name == "retain":
                 ctx = env.ctx(f)
                 clo = n["args"][0]
